@@ -201,6 +201,8 @@ class TrM:
                 elif isinstance(n, ast.AugAssign):
                     tg = [n.target]
                 for t in tg:
+                    if isinstance(t, ast.Subscript) and ast.unparse(t) in self.m.get("setitem_attrs", {}) and self.m["setitem_attrs"][ast.unparse(t)] not in self.writes:
+                        self.writes.append(self.m["setitem_attrs"][ast.unparse(t)])
                     if isinstance(t, ast.Subscript) and self.calls.get("setitem:" + ast.unparse(t.value), [None])[0] == "emit" and "events" not in self.writes:
                         self.writes.append("events")
                     ch = chain(t, ("self",) + tuple(self.m.get("local_objects", [])))
@@ -323,7 +325,7 @@ class TrM:
                 return self.expr(kws[tr[1]])
             if tr[0] == "pure":
                 # a module-level pure function translated elsewhere: ("pure", coq name, [parameter names], [types], result type)
-                _, cn, pnames, ptys, rty = tr
+                cn, pnames, ptys, rty = tr[1], tr[2], tr[3], tr[4]
                 kw = {x.arg: x.value for x in e.keywords}
                 pos = list(e.args)
                 args = []
@@ -337,7 +339,11 @@ class TrM:
                     args.append(t)
                 if kw or pos:
                     raise Refuse("extra arguments of %s" % k)
-                return "(%s %s)" % (cn, " ".join(args)), rty
+                pre = []
+                for a in (tr[5] if len(tr) > 5 else []):      # attributes of self the callee reads, passed first
+                    self.binder(a, self.attr_type(a))
+                    pre.append(a)
+                return "(%s %s)" % (cn, " ".join(pre + args)), rty
             raise Refuse("call %s in expression position" % k)
         if isinstance(e, ast.UnaryOp):
             a, ta = self.truth(e.operand) if isinstance(e.op, ast.Not) else self.expr(e.operand)
@@ -671,6 +677,13 @@ class TrM:
             return nxt()
         if isinstance(s, ast.Pass) or self.is_logging(s):
             return nxt()
+        if ast.unparse(s) in self.m.get("stmts", {}):
+            tr = self.m["stmts"][ast.unparse(s)]
+            if tr[0] == "erase":
+                return nxt()
+            if tr[0] == "emit":
+                return self.emit(tr, nxt)
+            raise Refuse("statement treatment %s" % (tr,))
         if isinstance(s, ast.Return):
             if s.value is None:
                 if self.rtype != "unit":
@@ -716,13 +729,6 @@ class TrM:
             return self.call_stmt(s.value, nxt)
         if isinstance(s, ast.AnnAssign) and s.value is not None and s.simple:
             return self.block([ast.copy_location(ast.Assign(targets=[s.target], value=s.value, type_comment=None), s)] + list(tail), rest)
-        if ast.unparse(s) in self.m.get("stmts", {}):
-            tr = self.m["stmts"][ast.unparse(s)]
-            if tr[0] == "erase":
-                return nxt()
-            if tr[0] == "emit":
-                return self.emit(tr, nxt)
-            raise Refuse("statement treatment %s" % (tr,))
         if isinstance(s, ast.Continue) and self.loop is not None:
             return self.loop["acc"]()
         if isinstance(s, ast.Break) and self.loop is not None:
@@ -757,6 +763,14 @@ class TrM:
             if isinstance(s, ast.Assign) and len(s.targets) != 1:
                 raise Refuse("multiple assignment targets")
             ch = chain(target, ("self",) + tuple(self.m.get("local_objects", [])))
+            if isinstance(target, ast.Subscript) and ast.unparse(target) in self.m.get("setitem_attrs", {}):
+                # an entry of a dictionary being built, treated as an attribute of the result
+                nm = self.m["setitem_attrs"][ast.unparse(target)]
+                t, tv = self.expr(s.value)
+                if tv != self.attr_type(nm):
+                    raise Refuse("type of %s" % nm)
+                self.binder(nm, tv)
+                return "let %s := %s in\n  %s" % (nm, t, nxt())
             if isinstance(target, ast.Subscript):
                 tr = self.calls.get("setitem:" + ast.unparse(target.value))
                 if tr is None or tr[0] != "emit":
@@ -845,6 +859,13 @@ class TrM:
 
     def run(self):
         stmts = list(self.f.body)
+        only = self.m.get("only_if")
+        if only:
+            # translate only the body of the one top-level `if <only>` (the method's other parts are modelled elsewhere)
+            idx = [i for i, st in enumerate(stmts) if isinstance(st, ast.If) and ast.unparse(st.test) == only and not st.orelse]
+            if len(idx) != 1:
+                raise Refuse("only_if: `if %s` not found exactly once at the top level of %s" % (only, self.f.name))
+            stmts = list(stmts[idx[0]].body)
         cut = self.m.get("until_if")
         if cut:
             idx = [i for i, st in enumerate(stmts) if isinstance(st, ast.If) and ast.unparse(st.test) == cut]
